@@ -362,10 +362,14 @@ def run(ctx, eng):
     cm.include(ctx, eng, 'C13',
                lambda o: o.rule == 'ATOM.ENC' and isinstance(o.desc, str) and
                (o.desc.startswith('raise after encode') or
-                o.desc.startswith('no raise after an encode')),
+                o.desc.startswith('no raise after an encode') or
+                o.desc.startswith('lazy-arg')),
                'a header block that was encoded but not emitted leaves the '
                'encoder ahead of the bytes: the next block no longer decodes '
                'at an independent decoder')
+    cm.include(ctx, eng, 'C21', {'ARITH.slice'},
+               'what data_to_send hands out, in whatever portions, is the '
+               'buffer: every appended byte exactly once and in order')
     ctx.assume('that hyperframe serialises a frame object correctly and '
                'HPACK output are trusted; "parses with an independent '
                'decoder" as such is not decided')
